@@ -175,9 +175,13 @@ class Canon(ast.NodeTransformer):
         for n in ast.walk(fn):
             if isinstance(n, ast.Name) and isinstance(n.ctx, (ast.Store, ast.Del)):
                 stores[n.id] = stores.get(n.id, 0) + 1
-            if isinstance(n, ast.Assign) and len(n.targets) == 1 and isinstance(n.targets[0], ast.Name) and isinstance(n.value, ast.Call) and isinstance(n.value.func, ast.Name) \
-                    and n.value.func.id == "len" and len(n.value.args) == 1 and isinstance(n.value.args[0], ast.Name) and not n.value.keywords:
-                binds[n.targets[0].id] = n.value.args[0].id
+            if isinstance(n, ast.Assign) and len(n.targets) == 1:
+                pairs = [(n.targets[0], n.value)]
+                if isinstance(n.targets[0], ast.Tuple) and isinstance(n.value, ast.Tuple) and len(n.targets[0].elts) == len(n.value.elts):
+                    pairs = list(zip(n.targets[0].elts, n.value.elts))  # n, i = len(x), 1
+                for t, v in pairs:
+                    if isinstance(t, ast.Name) and isinstance(v, ast.Call) and isinstance(v.func, ast.Name) and v.func.id == "len" and len(v.args) == 1 and isinstance(v.args[0], ast.Name) and not v.keywords:
+                        binds[t.id] = v.args[0].id
             if isinstance(n, ast.Call) and isinstance(n.func, ast.Attribute) and isinstance(n.func.value, ast.Name) and n.func.attr in ("append", "extend", "insert", "pop", "remove", "clear", "add", "discard", "update", "popitem",
                                                                                                                               "appendleft", "popleft", "setdefault"):
                 unsafe.add(n.func.value.id)
@@ -192,6 +196,7 @@ class Canon(ast.NodeTransformer):
 
     def visit_Call(self, node: ast.Call):
         self.generic_visit(node)
+        self._keywords_to_positional(node)
         if len(node.keywords) > 1 and all(k.arg is not None for k in node.keywords):
             node.keywords = sorted(node.keywords, key=lambda k: k.arg)  # keyword arguments in name order
         if isinstance(node.func, ast.Name) and not node.args and not node.keywords and node.func.id in ("list", "dict"):
@@ -210,11 +215,62 @@ class Canon(ast.NodeTransformer):
             return ast.copy_location(ast.Assign(targets=[node.target], value=node.value), node)
         return node
 
+    _cls_table: dict = {}
+    _cls_name = None
+    _mod_table: dict = {}
+
+    @staticmethod
+    def _signature(fn, method: bool):
+        """positional parameter names of a def that can be called by keyword or by position alike (None otherwise)"""
+        a = fn.args
+        if a.vararg or a.kwarg or a.posonlyargs:
+            return None
+        names = [x.arg for x in a.args]
+        if method and not any(isinstance(d, ast.Name) and d.id == "staticmethod" for d in fn.decorator_list):
+            names = names[1:]
+        return names
+
+    def visit_Module(self, node: ast.Module):
+        self._mod_table = {st.name: self._signature(st, False) for st in node.body if isinstance(st, ast.FunctionDef) and self._signature(st, False) is not None}
+        rebound = {n.id for n in ast.walk(node) if isinstance(n, ast.Name) and isinstance(n.ctx, ast.Store)} | {a.arg for n in ast.walk(node) if isinstance(n, ast.arguments) for a in ast.walk(n) if isinstance(a, ast.arg)}
+        self._mod_table = {k: v for k, v in self._mod_table.items() if k not in rebound}
+        self.generic_visit(node)
+        return node
+
     def visit_ClassDef(self, node: ast.ClassDef):
         d, self._fdepth = self._fdepth, 0
+        saved = (self._cls_table, self._cls_name)
+        self._cls_table = {st.name: self._signature(st, True) for st in node.body if isinstance(st, ast.FunctionDef) and self._signature(st, True) is not None
+                           and not any(isinstance(dd, ast.Name) and dd.id == "property" for dd in st.decorator_list)}
+        self._cls_name = node.name
         self.generic_visit(node)
+        self._cls_table, self._cls_name = saved
         self._fdepth = d
         return node
+
+    def _keywords_to_positional(self, node: ast.Call) -> None:
+        """f(a, k=b) -> f(a, b) when f is a function of this module / a method of the enclosing class called through self, cls or
+        the class name, and the keywords are exactly the next parameters in order"""
+        if not node.keywords or any(k.arg is None for k in node.keywords) or any(isinstance(a, ast.Starred) for a in node.args):
+            return
+        params = None
+        f = node.func
+        if isinstance(f, ast.Name) and f.id in self._mod_table:
+            params = self._mod_table[f.id]
+        elif isinstance(f, ast.Attribute) and isinstance(f.value, ast.Name) and f.value.id in ("self", "cls", self._cls_name) and f.attr in self._cls_table:
+            params = self._cls_table[f.attr]
+        if params is None:
+            return
+        kw = {k.arg: k.value for k in node.keywords}
+        extra = []
+        for name in params[len(node.args):]:
+            if name in kw:
+                extra.append(kw.pop(name))
+            else:
+                break
+        if not kw and extra:
+            node.args = list(node.args) + extra
+            node.keywords = []
 
     def visit_AugAssign(self, node: ast.AugAssign):
         self.generic_visit(node)
